@@ -14,6 +14,7 @@ import KadDHT.Driver.C03
 import KadDHT.Driver.C04
 import KadDHT.Driver.C08
 import KadDHT.Driver.C06
+import KadDHT.Driver.C15
 open KadDHT.Driver
 
 def main (args : List String) : IO UInt32 := do
@@ -21,6 +22,8 @@ def main (args : List String) : IO UInt32 := do
   | ["C18"] => runPure C18.handle; return 0
   | ["C18v"] => runPure C18v.handle; return 0
   | ["C19"] => runLoop C19.step {}; return 0
+  | ["C15"] => runPure C15.handle; return 0
+  | ["C15v"] => runPure C15.verdict; return 0
   | ["C06"] => runLoop C06.step {}; return 0
   | ["C06v"] => runLoop C06.verdict {}; return 0
   | ["C08"] => runLoop C08.step {}; return 0
